@@ -150,6 +150,8 @@ func genC11(seed uint64, idx int, tier string) *Scenario {
 				c.Path = c11Path(r)
 				if v != "RETR" && r.Chance(0.3) {
 					c.Path = ""
+				} else if v != "RETR" && r.Chance(0.2) {
+					c.Path = r.Pick([]string{"-la", "-a", "-l", "-la /", "-R"}) // ls options where the path goes
 				}
 				c.Xfer = true
 				c.Rst = r.Chance(0.1)
@@ -258,9 +260,30 @@ func runC11(t *testing.T, sc *Scenario) Result {
 		subst := strings.NewReplacer("@TMP@", tmp, "@ROOTNAME@", rootName, "@ROOT@", ftpRoot)
 		maskTmp, maskRoot = tmp, ftpRoot
 		before = snapshotTree(tmp, ftpRoot)
+		// names of the host's own root directory: a listing that shows several of them shows a host directory
+		hostRoot := map[string]bool{}
+		if ents, err := os.ReadDir("/"); err == nil {
+			for _, e := range ents {
+				if len(e.Name()) >= 3 {
+					hostRoot[e.Name()] = true
+				}
+			}
+		}
 		check := func(what string, b []byte) {
 			if bytes.Contains(b, []byte("SENTINEL-CONTENT")) || bytes.Contains(b, []byte("deep.txt")) {
 				leaked = append(leaked, fmt.Sprintf("%s: %q", what, short(string(b), 200)))
+			}
+			if strings.HasPrefix(what, "data of LIST") || strings.HasPrefix(what, "data of NLST") {
+				n := 0
+				for _, l := range strings.Split(string(b), "\n") {
+					f := strings.Fields(strings.TrimSpace(l))
+					if len(f) > 0 && hostRoot[f[len(f)-1]] {
+						n++
+					}
+				}
+				if n >= 3 {
+					leaked = append(leaked, fmt.Sprintf("%s lists %d entries of the host's root directory: %q", what, n, short(string(b), 300)))
+				}
 			}
 		}
 		w.Custom = func(w *World, ai int, op Op) {
